@@ -15,6 +15,7 @@ import (
 	"os"
 	"sort"
 	"strings"
+	"time"
 )
 
 // component is one modelled package.
@@ -107,7 +108,11 @@ func main() {
 				fmt.Fprintln(w, "bad-component")
 				continue
 			}
+			t0 := time.Now()
 			fmt.Fprintln(w, safeRun(c, f[1:]))
+			if d := time.Since(t0); d > 2*time.Second && os.Getenv("VERIF_SLOW") != "" {
+				fmt.Fprintf(os.Stderr, "slow op (%v): %s\n", d, line)
+			}
 		}
 	default:
 		fmt.Fprintln(os.Stderr, "usage: vcorr gen|run ...")
